@@ -112,6 +112,9 @@ class Facts:
 
     def helper(self, name: str) -> T.Optional[T.Any]:
         """A private method of the parser that parse_line / parse_test may call as a statement; its paths are spliced into the rows."""
+        if name.startswith('.'):      # a private module-level function of mtest.py
+            fn = self.mod.funcs().get(name[1:])
+            return fn if fn is not None and name[1:].startswith('_') and '.' not in name[1:] and isinstance(fn, ast.FunctionDef) else None
         if name in ('parse_line', 'parse', 'parse_async'):
             return None
         if name == 'parse_test' and not self.writes(name):
@@ -134,8 +137,47 @@ class Facts:
             return None
         return v if isinstance(v, str) else None
 
+    def display_of(self, chain: str) -> T.Optional[ast.Dict]:
+        """`self._TABLE` / `TAPParser._TABLE` / module-level `_TABLE` bound once to a dict display (a constant table)."""
+        head, _, tail = chain.rpartition('.')
+        if not hasattr(self, '_stored'):
+            self.text_const('self.x')
+        scope: T.Optional[ast.AST] = None
+        if head in ('self', PARSER, 'cls', RUNNER):
+            for cn in (PARSER, RUNNER):
+                c = self.mod.cls(cn)
+                if self.mod.has_assign(tail, c):
+                    scope = c
+                    break
+            if scope is None:
+                return None
+        elif head:
+            return None
+        if tail in self._stored or not self.mod.has_assign(tail, scope):
+            return None
+        v = self.mod.assign_value(tail, scope)
+        return v if isinstance(v, ast.Dict) and all(k is not None for k in v.keys) else None
+
     def normal(self, owner: str = PARSER) -> Normal:
-        return Normal(owner, self.text_const)
+        return Normal(owner, self.text_const, self.display_of)
+
+    def default(self, name: str) -> T.Any:
+        """Initial value of a parser field: the class-level default, or the value `__init__` stores unconditionally."""
+        if self.mod.has_assign(name, self.cls) or any(isinstance(st, ast.Assign) and isinstance(st.targets[0], (ast.Tuple, ast.List)) and
+                                                      name in [getattr(t, 'id', None) for t in st.targets[0].elts] for st in self.cls.body):
+            return self.fold(name)
+        init = self.mod.methods(PARSER).get('__init__')
+        if init is not None:
+            for st in init.body:
+                tgt = st.targets[0] if isinstance(st, ast.Assign) and len(st.targets) == 1 else (st.target if isinstance(st, ast.AnnAssign) else None)
+                if tgt is not None and attr_chain(tgt) == f'self.{name}' and getattr(st, 'value', None) is not None:
+                    v = st.value
+                    c = attr_chain(v) or ''
+                    head, _, tail = c.rpartition('.')
+                    if head in ('self', PARSER, 'cls') and tail:
+                        return self.fold(tail)
+                    return _Folder(self.repo, self.mod, self.cls).fold(v)
+        raise Undecided(f'{PARSER}: no initial value found for the field {name} (class default or __init__)')
 
     def writes(self, name: str) -> T.Set[str]:
         """Parser fields a method stores into."""
@@ -154,7 +196,7 @@ class Facts:
             nxt = []
             for q in level:
                 for n in walk_no_nested(meths[q]):
-                    if isinstance(n, ast.Expr):
+                    if isinstance(n, (ast.Expr, ast.Assign, ast.AnnAssign)) and getattr(n, 'value', None) is not None:
                         c = n.value.value if isinstance(n.value, ast.YieldFrom) else n.value
                         if isinstance(c, ast.Call) and isinstance(c.func, ast.Attribute) and attr_chain(c.func.value) == 'self' \
                                 and self.helper(c.func.attr) is not None and c.func.attr not in seen:
@@ -270,7 +312,7 @@ class Facts:
                                     if isinstance(st, ast.Assign) and any(attr_chain(t) == 'self.state' for t in st.targets) and cname(st.value):
                                         yaml_names.add(T.cast(str, cname(st.value)))
             vals = {k: self.fold(k) for k in used}
-            init = self.fold('state')
+            init = self.default('state')
             main = [k for k, v in vals.items() if v == init]
             if len(set(vals.values())) != 3 or len(vals) != 3 or len(main) != 1 or len(yaml_names) != 1 or yaml_names == set(main):
                 raise Undecided(f'{PARSER}: cannot identify the three parser states by role (constants used with self.state: {sorted(vals)})')
@@ -935,6 +977,9 @@ def _check_test(m: Model) -> None:
             return 'number above highest', False
         if a.kind == 'in' and _new_last(f, _e(a.args[0])) and a.args[1].startswith('self.') and a.args[1].count('.') == 1:
             return 'number seen before', False
+        thn = _thresh(a, lambda x: _new_last(f, _e(x)) is not None)
+        if thn is not None and thn[0] == 1:
+            return 'number>=1', thn[1]
         if a.kind == 'cmp' and any(x in t for t in a.args[1:] for x in ('self.plan.num_tests', 'self.last_test', 'self.num_tests', 'self.highest_test')):
             m.diff('C18.R3', f'{tab.name}: counter comparison', f'{tab.name} tests `{a!r}`; the reference compares the new test number with the plan '
                    f'as `self.plan.num_tests < <new last_test>` (and nothing else among the counters)', sec.node)
@@ -954,7 +999,8 @@ def _check_test(m: Model) -> None:
         late_err = bool(v.get('plan') and v.get('late plan') and not v.get('late test seen'))
         beyond = bool(v.get('plan') and v.get('number beyond plan'))
         dup = bool(v.get('number seen before'))
-        return {'events': ['Error'] * late_err + ['Error'] * dup + ['Error'] * beyond + ['forward:parse_test'], 'late-test flag set': late_err,
+        low = v.get('number>=1') is False
+        return {'events': ['Error'] * late_err + ['Error'] * low + ['Error'] * dup + ['Error'] * beyond + ['forward:parse_test'], 'late-test flag set': late_err,
                 'state': '_AFTER_TEST', 'leaves by': 'return'}
 
     def got(r: Row, v: T.Dict[str, T.Optional[bool]]) -> T.Any:
@@ -1004,6 +1050,7 @@ def _check_test(m: Model) -> None:
         m.ok('C18.R3', f'{tab.name}: on all {len(tab.rows)} rows num_tests := num_tests + 1, last_test := last_test + 1 if the number group is None '
                        f'else int(group), highest_test := max(highest_test, new last_test), the subtest carries the new last_test')
     _check_retention(m, tab, sec)
+    _check_lower_bound(m, tab, sec)
     # R2: operands of the forwarded subtest
     oprob: T.Dict[str, ast.AST] = {}
     for r_ in tab.rows:
@@ -1094,6 +1141,34 @@ def _check_retention(m: Model, tab: tables.Table, sec: Section) -> None:
            f'the explicit number of a test line is used only as: {sorted(uses)}; end of stream compares highest_test with num_tests. So the streams '
            f'`ok 1, ok 1, ok 3` and `ok 1, ok 2, ok 3` reach the same parser state and yield the same events: a duplicate number (and the '
            f'number it displaces) produces no Error event (property: "duplicate or missing numbers ... each produce an error")', sec.node)
+
+
+def _check_lower_bound(m: Model, tab: tables.Table, sec: Section) -> None:
+    """K3, second clause of "missing numbers produce an error": the end-of-stream checks (count, maximum, number of distinct numbers)
+    conclude "1..n all present" only if every number is >= 1.  So either a test-line row compares the new number with a lower bound
+    (and reports), or end of stream looks at the retained numbers in some other way (then this clause is silent).  Otherwise
+    `ok 0, ok 2` (count = maximum = distinct = 2) passes although test 1 is missing."""
+    f = m.f
+    rows = [T.cast(Row, r) for r in tab.rows]
+    if not rows or any(r.final.get('self.last_test') is None or _new_last(f, r.final['self.last_test']) is None for r in rows):
+        return
+    for r in rows:
+        nl = norm(r.final['self.last_test'])
+        for a in r.conds:
+            if a.kind == 'cmp' and (nl in a.args[1:] or any(_is_int_of(f, _e(x), 'test') for x in a.args[1:] if isinstance(x, str))) \
+                    and any(_int_const(x) is not None and _int_const(x) <= 1 for x in a.args[1:] if isinstance(x, str)):
+                m.ok('C18.R3', f'{tab.name}: the new test number is compared with a lower bound (`{a!r}`)')
+                return
+    for r_ in m.s.eof.rows:
+        for a in r_.conds:
+            t = ' '.join(str(x) for x in a.args)
+            if ('min(' in t or ' in self.' in f' {t}' and a.kind == 'in') or ('self.last_test' in t):
+                m.ok('C18.R3', f'{m.s.eof.name}: the retained numbers are examined by `{a!r}` (not judged)')
+                return
+    m.diff('C18.R3', 'test numbers: no lower bound',
+           'no test-line row compares the new test number with a lower bound and end of stream only compares count, maximum and the number of '
+           'distinct numbers: `ok 0, ok 2` (count = maximum = distinct = 2) yields no Error although test 1 is missing and 0 is not a test number '
+           '(property: "duplicate or missing numbers ... each produce an error")', sec.node)
 
 
 def _bind_call(fn: T.Any, call: ast.Call) -> T.Optional[T.List[ast.AST]]:
@@ -1454,7 +1529,9 @@ def _check_parse_test(m: Model) -> None:
             if a == Atom('truth', ('ARG1',)) and v.get('ok') is not None:
                 return result(e.body if bool(v.get('ok')) == val else e.orelse, v)
         c = attr_chain(e) or ''
-        return c.split('.')[-1] if c.startswith('TestResult.') else '?' + short(e, 40)
+        if not c.startswith('TestResult.'):
+            raise Undecided(f'parse_test: the result operand `{short(e, 60)}` does not resolve to a TestResult member')
+        return c.split('.')[-1]
 
     def explained(e: ast.AST) -> bool:
         if not isinstance(e, ast.IfExp):
@@ -1471,6 +1548,11 @@ def _check_parse_test(m: Model) -> None:
             if n_ == 'Test' and not c[2]:
                 ops = c[1]
                 okops = norm(ops['number']) == 'ARG2' and norm(ops['name']) == 'ARG3.strip()' and explained(ops['explanation'])
+                if not okops:
+                    import re as _re
+                    for k_ in ('number', 'name', 'explanation'):      # a deviation is only reported for operands built from the parameters alone
+                        if _re.sub(r'ARG[1-5]|\.strip\(\)| if | else |None|not |\s', '', norm(ops[k_])):
+                            raise Undecided(f'parse_test: the {k_} operand `{short(ops[k_], 60)}` of the Test event is not a plain use of the parameters')
                 out.append('Test ' + result(ops['result'], v) + ('' if okops else f' with operands {short(e.value, 90)}'))
             else:
                 out.append(n_)
@@ -1575,9 +1657,9 @@ def r1(ctx: RuleCtx) -> None:
     mod = f.mod
     names = {v: k for k, v in f.states.items()}
     ctx.require(len(names) == 3, 'the three state constants are distinct', mod, PARSER, '_MAIN/_AFTER_TEST/_YAML', f'state constants collide: {f.states}')
-    init = f.fold('state')
+    init = f.default('state')
     ctx.require(init == f.states['_MAIN'], 'a new parser starts in _MAIN', mod, PARSER, 'state', f'class default of state is {init!r}, not _MAIN')
-    v0 = f.fold('version')
+    v0 = f.default('version')
     ctx.require(isinstance(v0, int) and v0 < 13, 'a new parser assumes TAP 12 (no YAML) until a version line', mod, PARSER, 'version',
                 f'class default of version is {v0!r}')
     # who writes the parser fields: only the step function (a write elsewhere is invisible to the tables: cannot tell)
@@ -1587,7 +1669,7 @@ def r1(ctx: RuleCtx) -> None:
             if isinstance(n, ast.Attribute) and isinstance(n.ctx, ast.Store) and n.attr in FIELDS and attr_chain(n.value) == 'self':
                 writers.append((name, n))
     reach = f.reach()
-    outside = sorted({f'{name} writes self.{n.attr}' for name, n in writers if name not in reach})
+    outside = sorted({f'{name} writes self.{n.attr}' for name, n in writers if name not in reach and name != '__init__'})
     if outside:
         raise Undecided(f'parser fields are written outside parse_line and the methods spliced into its tables: {"; ".join(outside)}')
     nstate = sum(1 for _, n in writers if n.attr == 'state')
@@ -1889,6 +1971,11 @@ def r4(ctx: RuleCtx) -> None:
     n_int = n_assert = 0
     covered = [(f'{PARSER}.parse_line', f.parse_line), (f'{PARSER}.parse_test', f.parse_test)] + \
         [(f'{PARSER}.{h}', mod.func(f'{PARSER}.{h}')) for h in sorted(f.reach() - {'parse_line'})]
+    for _, fn0 in list(covered):      # private module-level helpers they call
+        for n in walk_no_nested(fn0):
+            if isinstance(n, ast.Call) and isinstance(n.func, ast.Name) and f.helper('.' + n.func.id) is not None \
+                    and all(x[1] is not f.helper('.' + n.func.id) for x in covered):
+                covered.append((n.func.id, f.helper('.' + n.func.id)))
     for qn, fn in covered:
         cfg = CFG(fn)
         for n in _body_nodes(fn):
@@ -2083,6 +2170,53 @@ def _is_allskip(e: ast.AST) -> T.Optional[bool]:
     return None
 
 
+def _expand_type_dispatch(fn: T.Any, body: T.List[ast.stmt]) -> T.List[ast.stmt]:
+    """Normal form of a dispatch table keyed by the event class: with `D = {K1: h1, K2: h2}` bound once in the function,
+    `if type(x) in D: ... D[type(x)](...) ...` stands for `if isinstance(x, K1): ... h1(...) ... elif isinstance(x, K2): ...`
+    (the events are NamedTuple classes without subclasses)."""
+    import copy
+    tables_: T.Dict[str, ast.Dict] = {}
+    for st in fn.body:
+        tgt = st.targets[0] if isinstance(st, ast.Assign) and len(st.targets) == 1 else (st.target if isinstance(st, ast.AnnAssign) else None)
+        val = getattr(st, 'value', None)
+        if isinstance(tgt, ast.Name) and isinstance(val, ast.Dict) and val.keys and all(k is not None and attr_chain(k) for k in val.keys):
+            others = [n for n in ast.walk(fn) if isinstance(n, ast.Name) and n.id == tgt.id and isinstance(n.ctx, ast.Store)]
+            if len(others) == 1:
+                tables_[tgt.id] = val
+    if not tables_:
+        return body
+
+    def is_type_of(e: ast.AST) -> T.Optional[ast.AST]:
+        return e.args[0] if isinstance(e, ast.Call) and isinstance(e.func, ast.Name) and e.func.id == 'type' and len(e.args) == 1 else None
+
+    class Use(ast.NodeTransformer):
+        def __init__(self, d: str, x: str, repl: ast.AST):
+            self.d, self.x, self.repl = d, x, repl
+
+        def visit_Subscript(self, n: ast.Subscript) -> ast.AST:
+            self.generic_visit(n)
+            t = is_type_of(n.slice)
+            if isinstance(n.value, ast.Name) and n.value.id == self.d and t is not None and norm(t) == self.x:
+                return copy.deepcopy(self.repl)
+            return n
+
+    class Expand(ast.NodeTransformer):
+        def visit_If(self, n: ast.If) -> ast.AST:
+            self.generic_visit(n)
+            t = n.test
+            if isinstance(t, ast.Compare) and len(t.ops) == 1 and isinstance(t.ops[0], ast.In) and isinstance(t.comparators[0], ast.Name) \
+                    and t.comparators[0].id in tables_ and is_type_of(t.left) is not None:
+                d, x = t.comparators[0].id, norm(is_type_of(t.left))
+                chain: T.List[ast.stmt] = list(n.orelse)
+                for k, v in reversed(list(zip(tables_[d].keys, tables_[d].values))):
+                    test = ast.Call(func=ast.Name(id='isinstance', ctx=ast.Load()), args=[copy.deepcopy(is_type_of(t.left)), copy.deepcopy(k)], keywords=[])
+                    bdy = [Use(d, x, v).visit(copy.deepcopy(b)) for b in n.body]
+                    chain = [ast.copy_location(ast.If(test=test, body=bdy, orelse=chain), n)]
+                return ast.fix_missing_locations(chain[0])
+            return n
+    return [Expand().visit(copy.deepcopy(b)) for b in body]
+
+
 def r5(ctx: RuleCtx) -> None:
     mod = ctx.repo.module(MTEST)
     f = facts(ctx)
@@ -2114,13 +2248,25 @@ def r5(ctx: RuleCtx) -> None:
         raise Undecided(f'{qn}: no local verdict is stored into self.res')
     # the finite domain of the verdict local: the constants assigned to it anywhere in the function
     domain: T.List[T.Optional[str]] = []
-    for s in ast.walk(fn):
-        if isinstance(s, ast.Assign) and any(isinstance(t, ast.Name) and t.id == acc for t in s.targets):
-            v = None if (isinstance(s.value, ast.Constant) and s.value.value is None) else _enum(s.value)
-            if v is None and not (isinstance(s.value, ast.Constant) and s.value.value is None):
-                raise Undecided(f'{qn}: `{short(s)}` assigns something else than None / a TestResult member to the verdict')
-            if v not in domain:
-                domain.append(v)
+    used_helpers = [mod.methods(RUNNER)[n.attr] for n in ast.walk(fn) if isinstance(n, ast.Attribute) and attr_chain(n.value) == 'self'
+                    and n.attr in mod.methods(RUNNER) and n.attr not in ('parse', 'complete')]
+    sources: T.List[T.Tuple[ast.AST, ast.AST]] = [(s_, s_.value) for s_ in ast.walk(fn) if isinstance(s_, ast.Assign)
+                                                  and any(isinstance(t, ast.Name) and t.id == acc for t in s_.targets)]
+    for h in used_helpers:      # verdict values produced by handler methods (assignments to their own verdict parameter / local, and returns)
+        sources += [(s_, s_.value) for s_ in ast.walk(h) if isinstance(s_, ast.Return) and s_.value is not None]
+        sources += [(s_, s_.value) for s_ in ast.walk(h) if isinstance(s_, ast.Assign) and isinstance(s_.value, (ast.Attribute, ast.Constant))
+                    and all(isinstance(t, ast.Name) for t in s_.targets)]
+    for s_, val in sources:
+        if isinstance(val, ast.Name) or (isinstance(val, ast.Call) and (attr_chain(val.func) or '').startswith('self.')) \
+                or (isinstance(val, ast.Call) and isinstance(val.func, ast.Subscript)):
+            continue        # the verdict passed through / produced by a handler whose own returns are collected
+        v = None if (isinstance(val, ast.Constant) and val.value is None) else _enum(val)
+        if v is None and not (isinstance(val, ast.Constant) and val.value is None):
+            if isinstance(s_, ast.Assign) and any(isinstance(t, ast.Name) and t.id == acc for t in s_.targets) and s_ in list(ast.walk(fn)):
+                raise Undecided(f'{qn}: `{short(s_)}` assigns something else than None / a TestResult member to the verdict')
+            continue
+        if v not in domain:
+            domain.append(v)
     members = [v for v in domain if v is not None]
 
     def verdict_of(view: T.Dict[str, T.Optional[bool]]) -> T.Any:
@@ -2214,7 +2360,7 @@ def r5(ctx: RuleCtx) -> None:
         ctx.ok(f'{ttab.name}: bad verdict kept, all-SKIP -> SKIP unless the verdict is in {sorted(protected)}, harness verdicts untouched '
                f'({len(trows)} worlds, {len(ttab.rows)} rows; verdict domain {domain})')
     # ---- loop body: one table per event
-    ltab, _ = build(fn, loop.body, f'{RUNNER}.parse[per event]', helpers=rhelper, normal=f.normal(RUNNER))
+    ltab, _ = build(fn, _expand_type_dispatch(fn, loop.body), f'{RUNNER}.parse[per event]', helpers=rhelper, normal=f.normal(RUNNER))
     closed(ltab)
     kinds = sorted(f.tuples)
 
@@ -2236,7 +2382,7 @@ def r5(ctx: RuleCtx) -> None:
                        or (e.kind == 'aug' and e.target == 'self.results' and e.op == 'Add' and norm(e.value) in (f'[{ev}]', f'({ev},)'))
                        or (e.kind == 'set' and e.target == 'self.results' and norm(e.value) in (f'self.results + [{ev}]', f'[*self.results, {ev}]'))
                        for e in r.effs())
-        if not sets:
+        if not sets or norm(sets[-1].value) == acc:
             return ('unchanged', appended)
         val = sets[-1].value
         if isinstance(val, ast.Constant) and val.value is None:
